@@ -165,6 +165,23 @@ def _fn_sir3():
     return {"coq": text, "translated": done, "refused": failed}
 
 
+@unit("fn_sir4")
+def _fn_sir4():
+    """SensitiveWordAnonymizer.__init__ with _generate_sensitive_word_regex and _generate_conflicting_reserved_word_list.  re.compile is uninterpreted;
+    a set is the list of its elements without repetitions (first occurrence kept), in the order they were added"""
+    import os
+
+    sys.path.insert(0, os.path.dirname(os.path.abspath(__file__)))
+    import translate
+    import netconan.sensitive_item_removal as pm
+
+    text, done, failed = translate.translate_module(
+        pm.__file__, pm, wanted=[("SensitiveWordAnonymizer", "__init__"), ("SensitiveWordAnonymizer", "_generate_sensitive_word_regex"),
+                                 ("SensitiveWordAnonymizer", "_generate_conflicting_reserved_word_list")],
+        oracles=("re.compile",), sets_as_lists=True, sets_dedup=True)
+    return {"coq": text, "translated": done, "refused": failed}
+
+
 @unit("fn_files3")
 def _fn_files3():
     """FileAnonymizer.__init__: which anonymizers a set of options switches on and what each is given.  The constructors of the four anonymizer
